@@ -63,6 +63,14 @@ def make_store(kind: str, root: str, cap: int, fresh_dirs: bool = True) -> Any:
     from dds.store import LocalFileStore, MemoryStore
     if kind == "memory":
         st: Any = MemoryStore()
+    elif kind == "local~linkdata":
+        # the data directory is a symbolic link to a directory elsewhere, at another depth
+        phys = os.path.join(root, "volumes", "big", "scratch", "data")
+        os.makedirs(phys, exist_ok=True)
+        os.makedirs(os.path.join(root, "store"), exist_ok=True)
+        if not os.path.islink(os.path.join(root, "store", "data")):
+            os.symlink(phys, os.path.join(root, "store", "data"))
+        st = LocalFileStore(os.path.join(root, "store", "internal"), os.path.join(root, "store", "data"))
     elif kind == "local":
         st = LocalFileStore(os.path.join(root, "store", "internal"), os.path.join(root, "store", "data"))
     elif kind == "dbfs":
@@ -135,7 +143,7 @@ class Runner(object):
                 del v
             elif op == "sync":
                 m = OrderedDict((self.path_strs[p], real_key(k)) for (p, k) in sorted(arg))
-                before = tree_snapshot(self.root) if self.kind == "local" else None
+                before = tree_snapshot(self.root) if self.kind.startswith("local") else None
                 try:
                     self.store.sync_paths(m)
                     out["ans"] = ["ok"]
@@ -144,10 +152,11 @@ class Runner(object):
                 if before is not None:
                     after = tree_snapshot(self.root)
                     dd = os.path.realpath(self.data_dir())
+                    dd_lex = os.path.join(self.root, "store", "data")
                     new = [p for p in after if p not in before or before[p] != after[p]]
                     outside = [p for p in new
                                if not (os.path.realpath(os.path.dirname(p)) + os.sep).startswith(dd + os.sep)
-                               and os.path.realpath(os.path.dirname(p)) != dd]
+                               and os.path.realpath(os.path.dirname(p)) != dd and p != dd_lex]
                     out["inside"] = not outside
                     out["outside"] = [os.path.relpath(p, self.root) for p in outside][:4]
                 else:
